@@ -177,11 +177,13 @@ class AV(Value):
             return self.size
         if name == 'dtype':
             return self.dtype
-        if name == 'ravel':
+        if name in ('ravel', 'flatten'):
             return PyFunc(lambda interp: AV(SSeq.lift((self.size,)), self.data, self.dtype, self.size), 'Array.ravel')
         if name == 'reshape':
             def reshape(interp, *a):
                 new = B.as_seq(interp, a[0]) if len(a) == 1 and not is_intlike(a[0]) else SSeq.lift(tuple(a))
+                if concrete(new.length) == 1 and concrete(new.get(0)) == -1:
+                    return AV(SSeq.lift((self.size,)), self.data, self.dtype, self.size)       # reshape(-1) is ravel()
                 new = SSeq(new.length, new.get, 'tuple') if not hasattr(new, 'arr') else new
                 ob(interp, 'pre', 'reshape-keeps-the-number-of-elements',
                    to_z3(size_of_shape(interp.run, new)) == to_z3(self.size))
